@@ -172,3 +172,21 @@ def run(spec, R):
         if i % 64 == 0 and R.out_of_time():
             R.extra['cut_short'] = 1
             break
+    if spec['tier'] == 'thorough':
+        # beyond the exhaustive bound: random values up to 7 atoms against their copies and mutations
+        j = 0
+        while not R.out_of_time():
+            a = gens.random_value(rng, atoms, 7)
+            check_pair(a, a, R, rng)
+            muts = mutations(a, rng, atoms)
+            for b in rng.sample(muts, min(len(muts), 8)):
+                check_pair(a, b, R, rng)
+            F = tuple(rng.sample(names_pool, rng.randint(0, 3)))
+            try:
+                refcat.from_ref(a).clear_features(*F)
+            except Exception as e:
+                R.violation('cat:clear-features', f'clear_features raised {e!r}', {'a': refcat.ref_print(a), 'F': F})
+            j += 1
+            if j >= 150000:
+                break
+        R.extra['deep_values_checked'] = j
